@@ -70,6 +70,20 @@ theorem flushDb_frame (s s' : State) (i j : Nat) (h : j ≠ i) (hs : flushDb s i
   · simp at hs
   · simp at hs; rw [← hs]; simp [NMap.get_put_other _ _ _ _ (Ne.symm h)]
 
+theorem mutObj_frame (s : State) (i j : Nat) (k : Bytes) (v : Val) (h : j ≠ i) :
+    (mutObj s i k v).dbs.get j = s.dbs.get j := by
+  unfold mutObj
+  split
+  · rfl
+  · simp [NMap.get_put_other _ _ _ _ (Ne.symm h)]
+
+theorem tagOid_frame (s : State) (i j : Nat) (k : Bytes) (o : Nat) (h : j ≠ i) :
+    (tagOid s i k o).dbs.get j = s.dbs.get j := by
+  unfold tagOid
+  split
+  · rfl
+  · simp [NMap.get_put_other _ _ _ _ (Ne.symm h)]
+
 /-- one primitive other than the all-databases flush leaves the other databases alone -/
 theorem prim_frame (c : Ctx) (s : State) (p : Prim) (s' : State) (r : p.Res) (j : Nat)
     (hj : j ≠ c.db) (hp : p ≠ .flush true) (h : p.exec c s = some (s', r)) :
@@ -98,6 +112,17 @@ theorem prim_frame (c : Ctx) (s : State) (p : Prim) (s' : State) (r : p.Res) (j 
     simp only [Prim.exec] at h
     rw [show s' = deleteKey s c.db k from by rw [← (Prod.mk.inj (Option.some.inj h)).1]]
     exact deleteKey_frame s c.db j k hj
+  | mutObj k v =>
+    simp only [Prim.exec] at h
+    rw [show s' = mutObj s c.db k v from by rw [← (Prod.mk.inj (Option.some.inj h)).1]]
+    exact mutObj_frame s c.db j k v hj
+  | newOid =>
+    simp only [Prim.exec] at h
+    rw [show s' = s from by rw [← (Prod.mk.inj (Option.some.inj h)).1]]
+  | tagOid k o =>
+    simp only [Prim.exec] at h
+    rw [show s' = tagOid s c.db k o from by rw [← (Prod.mk.inj (Option.some.inj h)).1]]
+    exact tagOid_frame s c.db j k o hj
   | flush all =>
     cases all with
     | true => exact absurd rfl hp
